@@ -22,8 +22,13 @@ pub const OVERLAP_COMPOUND: u16 = 0x0400;
 pub const SCALED_COMPONENT_OFFSET: u16 = 0x0800;
 pub const UNSCALED_COMPONENT_OFFSET: u16 = 0x1000;
 /// the flag bits a model may choose freely (the others are derived from the structure)
-pub const FREE_COMPONENT_FLAGS: u16 =
-    ARGS_ARE_XY_VALUES | ROUND_XY_TO_GRID | USE_MY_METRICS | OVERLAP_COMPOUND | SCALED_COMPONENT_OFFSET | UNSCALED_COMPONENT_OFFSET;
+pub const FREE_COMPONENT_FLAGS: u16 = ARGS_ARE_XY_VALUES
+    | ROUND_XY_TO_GRID
+    | WE_HAVE_INSTRUCTIONS
+    | USE_MY_METRICS
+    | OVERLAP_COMPOUND
+    | SCALED_COMPONENT_OFFSET
+    | UNSCALED_COMPONENT_OFFSET;
 
 #[derive(Clone, Debug, PartialEq)]
 pub struct Simple {
@@ -75,7 +80,7 @@ pub struct Component {
 
 impl Component {
     /// the complete flags word as stored in the file
-    pub fn flags(&self, more: bool, instructions: bool) -> u16 {
+    pub fn flags(&self, more: bool) -> u16 {
         let mut f = self.misc_flags & FREE_COMPONENT_FLAGS;
         if self.words {
             f |= ARG_1_AND_2_ARE_WORDS;
@@ -89,9 +94,6 @@ impl Component {
         if more {
             f |= MORE_COMPONENTS;
         }
-        if instructions {
-            f |= WE_HAVE_INSTRUCTIONS;
-        }
         f
     }
     pub fn xy(&self) -> bool {
@@ -103,7 +105,8 @@ impl Component {
 pub struct Composite {
     /// at least one
     pub components: Vec<Component>,
-    /// Some => WE_HAVE_INSTRUCTIONS on the last component (possibly zero length)
+    /// Some (possibly zero length) iff at least one component — any of them, not necessarily
+    /// the last — carries WE_HAVE_INSTRUCTIONS; the instructions follow the last component
     pub instructions: Option<Vec<u8>>,
     pub bbox: BBox,
 }
@@ -116,6 +119,12 @@ pub enum Glyph {
     EmptyHeader,
     Simple(Simple),
     Composite(Composite),
+}
+
+impl Composite {
+    pub fn any_instruction_flag(&self) -> bool {
+        self.components.iter().any(|c| c.misc_flags & WE_HAVE_INSTRUCTIONS != 0)
+    }
 }
 
 impl Glyph {
@@ -135,7 +144,7 @@ pub fn encode_components(c: &Composite) -> Vec<u8> {
     let mut b = Buf::new();
     let last = c.components.len() - 1;
     for (i, comp) in c.components.iter().enumerate() {
-        let flags = comp.flags(i != last, i == last && c.instructions.is_some());
+        let flags = comp.flags(i != last);
         b.u16(flags).u16(comp.glyph);
         match (comp.words, comp.xy()) {
             (true, true) => {
@@ -243,6 +252,7 @@ fn encode_composite(c: &Composite) -> Vec<u8> {
     b.i16(-1);
     b.i16(c.bbox.0).i16(c.bbox.1).i16(c.bbox.2).i16(c.bbox.3);
     b.bytes(&encode_components(c));
+    assert!(c.instructions.is_some() == c.any_instruction_flag(), "composite model: instructions vs WE_HAVE_INSTRUCTIONS flags");
     if let Some(ins) = &c.instructions {
         b.u16(ins.len() as u16).bytes(ins);
     }
